@@ -435,6 +435,70 @@ def leaf_centre(facts, res, c, geo):
                 res.violation(R, tbf.rel(facts.path_of(mm)), mm["qname"], "leaf-width-arg:%s" % op, u["l"][1], "%s hands `%s` to the interpolator as the leaf width, not the member initialised to W / 2^(H-1)" % (op, a1))
 
 
+def level_uniform(facts, res, cls, R, floor=3):
+    """the operators of a translation kernel treat every level alike: the level argument reaches width / scale arithmetic only, never a
+    branch, loop bound or selection, and the kernel never names an executor's boundary levels (TbfDefaultLastLevel...).  An executor may
+    start the downward pass at any upper level (2, 1 for periodic runs, or the caller's choice), and the periodic top tree calls the same
+    operators above level 0: an operator that behaves differently below some absolute level is right for one of those choices only."""
+    n = 0
+    for op in ("M2M", "M2L", "L2L", "P2M", "L2P", "P2P", "P2PTsm", "P2PInner"):
+        for m in facts.methods_of(cls):
+            if m["name"] != op or tbf.body(m) is None or m.get("inst"):
+                continue
+            fn = tbf.expand_member_helpers(facts, m) if hasattr(tbf, "expand_member_helpers") else m
+            body = tbf.body(fn)
+            roles = coherence.ROLES.get(op)
+            lv = [p for p, r in zip(fn["params"], roles) if r[1] == "level"] if roles and len(roles) == len(fn["params"]) else []
+            n += 1
+            f = tbf.rel(facts.path_of(m))
+            for x in walk(body):
+                if x.get("k") == "DeclRefExpr" and str(x.get("name", "")).startswith("TbfDefaultLastLevel"):
+                    res.violation(R, f, m["qname"], "boundary-level:%s" % x["name"], x["l"][1],
+                                  "%s::%s reads the executor constant %s: the kernel is also run with other upper levels (periodic runs, explicit limits, the periodic top tree)" % (cls, op, x["name"]))
+            if not lv:
+                res.instance(R, "%s::%s" % (cls, op), facts.loc(m), "no level parameter")
+                continue
+            taint = {lv[0]["did"]}
+            changed = True
+            while changed:
+                changed = False
+                for v in walk(body):
+                    if v.get("k") == "VarDecl" and v.get("did") not in taint and any(y.get("k") == "DeclRefExpr" and y.get("did") in taint for y in walk(v)):
+                        taint.add(v["did"])
+                        changed = True
+                    if v.get("k") in ("BinaryOperator", "CompoundAssignOperator") and v.get("op") in ("=", "+=", "-=", "*=", "/=") and strip(kids(v)[0]).get("k") == "DeclRefExpr":
+                        d = strip(kids(v)[0]).get("did")
+                        if d not in taint and any(y.get("k") == "DeclRefExpr" and y.get("did") in taint for y in walk(kids(v)[1])):
+                            taint.add(d)
+                            changed = True
+            hits = 0
+            for x in walk(body):
+                k = x.get("k")
+                cond = None
+                if k in ("IfStmt", "WhileStmt", "SwitchStmt"):
+                    c = [y for y in kids(x) if y.get("k") != "DeclStmt"]
+                    cond = c[0] if c else None
+                elif k == "ForStmt" and len(kids(x)) >= 2:
+                    cond = kids(x)[1]
+                elif k == "ConditionalOperator":
+                    if any(y.get("k") == "CallExpr" and tbf.callee_name(y) in ("__assert_fail", "__assert") for y in walk(x)):
+                        continue
+                    cond = kids(x)[0]
+                if cond is not None and any(y.get("k") == "DeclRefExpr" and y.get("did") in taint for y in walk(cond)):
+                    # only branches that decide what is done with the operator's cells / particles (a level-indexed cache of operator
+                    # tables, say, selects how a value is obtained, not which contribution is added)
+                    others = {p["did"] for p in fn["params"]} - {lv[0]["did"]}
+                    ctl = [y for c2 in kids(x) if c2 is not cond for y in walk(c2)]
+                    if not any(y.get("k") == "DeclRefExpr" and y.get("did") in others for y in ctl):
+                        continue
+                    hits += 1
+                    res.violation(R, f, m["qname"], "level-branch@%s" % facts.ntext(cond)[:50], x["l"][1],
+                                  "%s::%s decides `%s` from its level argument: what the operator adds then depends on the absolute level, although the same operator serves runs whose upper working level is 2, 1 (periodic) or chosen by the caller, and the levels of the periodic top tree" % (cls, op, facts.ntext(cond)[:80]))
+            res.instance(R, "%s::%s" % (cls, op), facts.loc(m), "level argument `%s` flows into %d local(s), 0 branches" % (lv[0].get("name") or "<unnamed>", len(taint) - 1) if not hits else "level-dependent branches: %d" % hits)
+    res.floor(R, n, floor, "operators examined")
+    return n
+
+
 def run(res, tier):
     facts = tbf.scan("core")
     res.units.append("umbrella TU 'core': FUnifKernel, FAbstractUnifKernel, FUnifM2LHandler, FFftwCore / FFftw, FUnifInterpolator, FUnifTensor / FInterpTensor")
@@ -465,3 +529,5 @@ def run(res, tier):
     cobj, geo = geometry(facts)
     level_scaling(facts, res, geo)
     leaf_centre(facts, res, cobj, geo)
+    res.rule("C05.6 level-uniform operators: the level argument of M2M / M2L / L2L reaches width and scale arithmetic only (no branch, loop bound or selection depends on it); the kernel names no executor boundary level")
+    level_uniform(facts, res, K, "C05.6.level-uniform")
